@@ -10,10 +10,11 @@ import ast
 from vlib.srcindex import unparse
 
 UNKNOWN = object()
+RAISES = object()  # the evaluated expression raises (a ValueError of int() / float()): a definite outcome, not an unknown one
 MAX_DEPTH = 12
 
 
-def call_function(cls_info, name: str, args: list, kwargs: dict, depth: int, extra_env: dict | None = None):
+def call_function(cls_info, name: str, args: list, kwargs: dict, depth: int, extra_env: dict | None = None, bound_self: bool = False):
 	"""value of the pure class method cls_info.<name>(*args, **kwargs)"""
 	f = cls_info.method(name) if cls_info is not None else None
 	if f is None or depth > MAX_DEPTH or any(a is UNKNOWN for a in args) or any(v is UNKNOWN for v in kwargs.values()):
@@ -92,6 +93,21 @@ def _ev(fn_node: ast.AST, e: ast.AST, env: dict[str, object], depth: int, dsn_cl
 		src = unparse(e)
 		if src in env:
 			return env[src]
+		# `<object>.<property>` where the caller described the object: {'__objects__': {'node': (ClassInfo, {'tokens': '12'})}}
+		objs = env.get('__objects__') if isinstance(env, dict) else None
+		if isinstance(e, ast.Attribute) and isinstance(e.value, ast.Name) and objs and e.value.id in objs:
+			cls_o, attrs_o = objs[e.value.id]
+			if e.attr in attrs_o:
+				return attrs_o[e.attr]
+			g_ = None
+			cur_ = cls_o
+			seen_ = 0
+			while cur_ is not None and g_ is None and seen_ < 8:
+				g_ = cur_.method(e.attr)
+				cur_ = cur_.bases_resolved[0] if getattr(cur_, 'bases_resolved', None) else None
+				seen_ += 1
+			if g_ is not None and g_.is_property:
+				return call_function(g_.cls, e.attr, [], {}, depth + 1, {'__objects__': {'self': (cls_o, attrs_o)}, **{f'self.{k}': v for k, v in attrs_o.items()}}, bound_self=True)
 	if isinstance(e, ast.Constant):
 		return e.value
 	if isinstance(e, ast.Name):
@@ -230,7 +246,7 @@ def _ev(fn_node: ast.AST, e: ast.AST, env: dict[str, object], depth: int, dsn_cl
 			return call_function(dsn_cls, fn.split('.', 1)[1], args, kwargs, depth + 1)
 		if fn == 'len' and len(args) == 1 and isinstance(args[0], (list, str, tuple)) and not kwargs:
 			return len(args[0])
-		if isinstance(e.func, ast.Attribute) and e.func.attr in ('startswith', 'endswith', 'count', 'split', 'rsplit', 'join', 'partition', 'rpartition', 'strip', 'rstrip', 'lstrip', 'removesuffix', 'removeprefix', 'find', 'rfind', 'index', 'isdigit') and len(args) <= 2 and not kwargs:
+		if isinstance(e.func, ast.Attribute) and e.func.attr in ('startswith', 'endswith', 'count', 'split', 'rsplit', 'join', 'partition', 'rpartition', 'strip', 'rstrip', 'lstrip', 'removesuffix', 'removeprefix', 'find', 'rfind', 'index', 'isdigit', 'isdecimal', 'isnumeric', 'lower', 'upper', 'casefold', 'replace') and len(args) <= 2 and not kwargs:
 			recv = ev(e.func.value)
 			if isinstance(recv, str):
 				try:
@@ -240,11 +256,14 @@ def _ev(fn_node: ast.AST, e: ast.AST, env: dict[str, object], depth: int, dsn_cl
 				return list(out) if isinstance(out, tuple) else out
 		if fn in ('max', 'min') and len(args) >= 2 and not kwargs and all(isinstance(a, int) for a in args):
 			return max(args) if fn == 'max' else min(args)
-		if fn == 'int' and len(args) == 1 and not kwargs and isinstance(args[0], (str, int)):
+		if fn in ('int', 'float') and args and isinstance(args[0], (str, int, float)) and set(kwargs) <= {'base'}:
 			try:
-				return int(args[0])
+				if fn == 'float':
+					return float(args[0]) if len(args) == 1 and not kwargs else UNKNOWN
+				base = kwargs.get('base', args[1] if len(args) > 1 else None)
+				return int(args[0]) if base is None else int(args[0], base)
 			except Exception:
-				return UNKNOWN
+				return RAISES
 		if (local and fn.startswith(('self.', 'cls.'))) and own_method_cls is not None:
 			return call_function(own_method_cls, fn.split('.', 1)[1], args, kwargs, depth + 1)
 		return UNKNOWN
